@@ -22,7 +22,7 @@ def pst (deps : List (CompId × Mask)) (p : PackSt) : Cmd → PackSt
   | .remove _ c =>
     if p.dead then p else
     if p.final.contains c then
-      if (closedMask deps (Mask.erase p.final c)).contains c then p
+      if (closedMask deps (Mask.erase p.final c)).contains c then { p with final := closedMask deps (Mask.erase p.final c) }
       else { p with final := closedMask deps (Mask.erase p.final c), replaced := Mask.insert p.replaced c,
                     src := p.src.filter (·.1 != c) }
     else p
@@ -522,7 +522,9 @@ theorem pinv_remove {deps : List (CompId × Mask)} {ic : List (CompId × Val)} {
         · rw [hxc]; exact hca
         · exact subset_closedMask ((mem_erase _ _ _).mpr ⟨hx, hxc⟩)
     have hpst : pst deps p (.remove e c) = p := by
-      simp only [pst, halive, Bool.false_eq_true, if_false, hcc, if_true, (contains_iff _ _).mpr hca]
+      have h1 : pst deps p (.remove e c) = { p with final := closedMask deps (Mask.erase p.final c) } := by
+        simp only [pst, halive, Bool.false_eq_true, if_false, hcc, if_true, (contains_iff _ _).mpr hca]
+      rw [h1, heq]
     have hdo : S.doRemove info k c = (S, []) := by
       simp only [WS.doRemove, hal, hcs, hcc, Bool.not_true, Bool.false_eq_true, if_false, hdeps]
       have : (closed deps (Mask.erase p.final c) == p.final) = true := by
@@ -546,7 +548,8 @@ theorem pinv_remove {deps : List (CompId × Mask)} {ic : List (CompId × Val)} {
         (S.setEnt k (some { ent with comps :=
             (rebuild info (ent.comps.filter (·.1 != c)) (closedMask deps (Mask.erase p.final c)) []) }),
           cbDiff info k p.final (closedMask deps (Mask.erase p.final c))) := by
-      simp only [WS.doRemove, hal, hcs, hcc, Bool.not_true, Bool.false_eq_true, if_false, hdeps, hne]
+      have hcaS : (closed deps (Mask.erase p.final c)).contains c = false := contains_false_iff.mpr hca
+      simp only [WS.doRemove, hal, hcs, hcc, Bool.not_true, Bool.false_eq_true, if_false, hdeps, hne, hcaS]
       rfl
     rw [hdo, hpst]
     refine ⟨_, setEnt_alive_self S hk _, rfl, ?_, frameK_setEnt S k _, rfl⟩
